@@ -9,6 +9,13 @@
 //! with many duplicates.  Every database also holds the fixed tables `u(a,d)` (join partner)
 //! and `v(a,c)` (UNION partner).
 //!
+//! Second table kind "ab": `t(a INT, b INT)` [+ pk variant] — two columns of the SAME type over {NULL,1,2},
+//! every multiset of <= 2 (quick) / <= 4 (thorough) rows + two fixed 8-row tables, so that rows which are
+//! column permutations of each other ((1,2)/(2,1), (NULL,1)/(1,NULL)) and rows of one repeated value
+//! ((1,1),(2,2),(NULL,NULL)) occur together.  Bases there: SELECT *, DISTINCT a,b | b,a | a,b,a (WHERE <true>),
+//! DISTINCT a,b and DISTINCT * without WHERE (plain table), DISTINCT b,COUNT(*) GROUP BY a,b, DISTINCT t.a,t.b over
+//! t JOIN u ON t.b = u.a, and (a,b) UNION w(a,b); same order shapes and windows, same full/deep split.
+//!
 //! Queries are refmodel `Query` values: the SQL text (`to_sql`) and the expected answer
 //! (`eval`) come from the same object.  One *base* (projection / DISTINCT / GROUP BY / join /
 //! UNION form) x one *order shape* (no ORDER BY, 1 key, 2 keys over different columns; every
@@ -900,7 +907,7 @@ impl Check for C15 {
         let mut s = Spec::new(
             PROP,
             "exploration",
-            "a case is one query on one table.  Tables: every multiset of <=4 (quick) / <=6 (thorough) rows over {NULL,1,2}x{NULL,'a','b'} in a scrambled insertion order, as t(a,c) and as t(id PK,a,c), plus five fixed 8-row tables with duplicates (x2 variants).  Queries: 16 bases (SELECT * / a,c WHERE <true> / a,c / c with a hidden key; DISTINCT a | c | a,c; GROUP BY a | a,c with COUNT(*) [+DISTINCT]; INNER/LEFT JOIN with a fixed 4-row table [+DISTINCT]; UNION [ALL] with a fixed 4-row table) x order shapes (none; 1 key; 2 keys on different columns; key = column | a+1 | ordinal | COUNT(*) | unselected column; ASC/DESC each) x windows (LIMIT {none,0,1,2,m,m+1} x OFFSET {none,1,m} for <=1 key, 6 windows for 2 keys; m = un-windowed result size).  Full pass (whole query space): enumerated tables of <=2 (quick) / <=4 (thorough) rows + the fixed tables; deep pass: the larger tables with the constructs of the open findings KF-C15-01..11 left out (counted as pruned).  SQL text and expected answer come from the same refmodel Query value; verdict = QueryResult::accepts_loose.  Distinct = distinct (table, SQL text) by construction; non-trivial = result has >= 2 rows and the query has ORDER BY, LIMIT/OFFSET or DISTINCT.",
+            "a case is one query on one table.  Tables: every multiset of <=4 (quick) / <=6 (thorough) rows over {NULL,1,2}x{NULL,'a','b'} in a scrambled insertion order, as t(a,c) and as t(id PK,a,c), plus five fixed 8-row tables with duplicates (x2 variants).  Queries: 16 bases (SELECT * / a,c WHERE <true> / a,c / c with a hidden key; DISTINCT a | c | a,c; GROUP BY a | a,c with COUNT(*) [+DISTINCT]; INNER/LEFT JOIN with a fixed 4-row table [+DISTINCT]; UNION [ALL] with a fixed 4-row table) x order shapes (none; 1 key; 2 keys on different columns; key = column | a+1 | ordinal | COUNT(*) | unselected column; ASC/DESC each) x windows (LIMIT {none,0,1,2,m,m+1} x OFFSET {none,1,m} for <=1 key, 6 windows for 2 keys; m = un-windowed result size).  Second table kind t(a INT,b INT) [+pk]: every multiset of <=2 (quick) / <=4 (thorough) rows over {NULL,1,2}^2 + two fixed 8-row tables (rows that are column permutations of each other and rows of one repeated value) with 8-10 bases (SELECT *; DISTINCT a,b | b,a | a,b,a; DISTINCT a,b / DISTINCT * without WHERE; DISTINCT b,COUNT(*) GROUP BY a,b; DISTINCT t.a,t.b over an inner join; UNION with a fixed table) x the same order shapes and windows.  Full pass (whole query space): enumerated tables of <=2 (quick) / <=4 (thorough) rows + the fixed tables; deep pass: the larger tables with the constructs of the open findings KF-C15-01..11 left out (counted as pruned).  SQL text and expected answer come from the same refmodel Query value; verdict = QueryResult::accepts_loose.  Distinct = distinct (table, SQL text) by construction; non-trivial = result has >= 2 rows and the query has ORDER BY, LIMIT/OFFSET or DISTINCT.",
         );
         s.assumptions = &[
             "oracle = refmodel::sql (cross-checked against SQLite): NULL first ascending / last descending, ties in any order, a window cutting a tie may return any tied row, LIMIT without ORDER BY any sub-bag of the right size",
@@ -925,7 +932,7 @@ impl Check for C15 {
         for c in ["tables_ab", "queries_ab-distinct-ab", "queries_ab-distinct-ba", "distinct2_results_with_permuted_rows", "distinct2_results_with_equal_pair_rows", "queries", "queries_ordered", "queries_windowed", "pass_window_exact", "pass_window_tie_ambiguous", "plan_op_Sort", "plan_op_TopK", "plan_op_Limit", "plan_op_HashAggregate"] {
             rep.expect_nonzero(c);
         }
-        let kmax_ab = ctx.opt("kmax_ab").and_then(|s| s.parse().ok()).unwrap_or(ctx.tier.pick(3usize, 5usize));
+        let kmax_ab = ctx.opt("kmax_ab").and_then(|s| s.parse().ok()).unwrap_or(ctx.tier.pick(2usize, 4usize));
         rep.bound("max_rows_enumerated_tables_ab", json!(kmax_ab));
         let tables = all_tables(kmax, kfull, kmax_ab);
         rep.bound("tables", json!(tables.len()));
